@@ -378,6 +378,15 @@ func main() {
 			run.Tag("parse-rejected")
 			continue
 		}
+		// document order, judged independently of the child-key table: along the traversal the start offsets of the
+		// entered nodes never decrease (a node starts where its first child starts or before; siblings follow one
+		// another in the source)
+		if bad := sourceOrderViolation(doc); bad != "" {
+			run.Tag("source-order-broken")
+			run.Violation("nodes are not entered in document order: "+bad, map[string]interface{}{"case": caseT{Src: src, Form: "generic", Policy: [][]int{}}}, false)
+		} else {
+			run.Tag("source-order-checked")
+		}
 		a := &abstraction{ids: map[interface{}]int{}}
 		a.tree(doc)
 		nn := len(a.kinds)
@@ -432,4 +441,28 @@ func main() {
 	}
 	_ = json.Marshal
 	run.Finish()
+}
+
+// sourceOrderViolation walks the document with the real visitor and reports the first entered node whose start
+// offset lies before the start offset of the node entered just before it.
+func sourceOrderViolation(doc *ast.Document) (bad string) {
+	defer func() {
+		if r := recover(); r != nil {
+			bad = ""
+		}
+	}()
+	last, lastKind := -1, ""
+	visitor.Visit(doc, &visitor.VisitorOptions{Enter: func(p visitor.VisitFuncParams) (string, interface{}) {
+		n, ok := p.Node.(ast.Node)
+		if !ok || n == nil || n.GetLoc() == nil {
+			return visitor.ActionNoChange, nil
+		}
+		st := n.GetLoc().Start
+		if st < last && bad == "" {
+			bad = fmt.Sprintf("%s at offset %d is entered after %s at offset %d", n.GetKind(), st, lastKind, last)
+		}
+		last, lastKind = st, n.GetKind()
+		return visitor.ActionNoChange, nil
+	}}, nil)
+	return bad
 }
